@@ -288,6 +288,8 @@ func cmdCheck(args []string) int {
 	if os.Getenv("GOVC_TIMING") != "" {
 		fmt.Printf("TIMING load %.1fs\n", time.Since(t0).Seconds())
 	}
+	coverCalls = true
+	coverQuick = *tier != "thorough"
 	closure, roots := propClosure(P, *prop)
 	var wanted map[string]bool
 	if *prop != "" {
